@@ -114,3 +114,9 @@ pub open spec fn lmemo_post(b: Bdd, o: SemTypeContext, n: SemTypeContext, res: R
         })
     }
 }
+
+// ---- the two entries `dnf_mapping_is_empty` / `dnf_map_is_empty` (dnf.rs:163-171): the diagram's DNF handed to the wrapper
+pub open spec fn dnf_of(b: Bdd, d: Dnf) -> bool { forall|env: Env| #[trigger] dnf_eval(d@, env) == eval(b, env) }
+pub open spec fn entry_post(b: Bdd, is_map: bool, o: SemTypeContext, n: SemTypeContext, res: Result<IsEmptyStatus>) -> bool {
+    exists|d: Rc<Dnf>| dnf_of(b, *d) && #[trigger] memo_post(d, is_map, o, n, res)
+}
